@@ -1898,7 +1898,13 @@ evbuffer_prepend(struct evbuffer *buf, const void *data, size_t datlen)
 			buf->n_add_for_cb += datlen;
 			goto out;
 		} else if (chain->misalign) {
-			/* we can only fit some of the data. */
+			/* we can only fit some of the data.  Get the chain for
+			 * the rest first: failing after the partial copy would
+			 * leave the buffer changed. */
+			tmp = evbuffer_chain_new_membuf(
+			    datlen - (size_t)chain->misalign);
+			if (tmp == NULL)
+				goto done;
 			memcpy(chain->buffer,
 			    (char*)data + datlen - chain->misalign,
 			    (size_t)chain->misalign);
@@ -1907,12 +1913,14 @@ evbuffer_prepend(struct evbuffer *buf, const void *data, size_t datlen)
 			buf->n_add_for_cb += (size_t)chain->misalign;
 			datlen -= (size_t)chain->misalign;
 			chain->misalign = 0;
+			goto add_chain;
 		}
 	}
 
 	/* we need to add another chain */
 	if ((tmp = evbuffer_chain_new_membuf(datlen)) == NULL)
 		goto done;
+add_chain:
 	buf->first = tmp;
 	if (buf->last_with_datap == &buf->first && chain->off)
 		buf->last_with_datap = &tmp->next;
